@@ -728,7 +728,7 @@ pub fn run(opts: &Opts) -> i32 {
 
     let nviol = violations.len();
     let outcome = harness::conclude(PROP, violations, opts, &harness::verify_in_fresh_process);
-    ev.write(opts, nviol);
+    ev.write(opts, outcome.unlisted as usize, nviol);
     println!(
         "C13 {}: {} projects ({} non-trivial), {} simulated processes, {} violations ({} known), {:.1}s",
         opts.tier.name(),
